@@ -1121,8 +1121,74 @@ def rule_name(repo):
               "complete, unhashed names", eq.lineno)
     _placeholder_name(r, repo)
     _param_flow(r, repo)
-    r.require_floor(20)
+    _argspec_kinds(r, repo)
+    r.require_floor(24)
     return r
+
+
+def _argspec_kinds(r, repo):
+    """every kind of construct() parameter that inspect.getfullargspec reports is either encoded in the parameter list
+    or rejected by a raising guard"""
+    tm = repo.mod(RTYPE)
+    gp = tm.get_func('Component._gen_parameters')
+    specs = [n for n in ast.walk(gp) if isinstance(n, ast.Assign) and isinstance(n.value, ast.Call) and
+             norm(n.value.func).endswith('getfullargspec') and isinstance(n.targets[0], ast.Name)]
+    if len(specs) != 1:
+        raise AnalysisError("Component._gen_parameters: inspect.getfullargspec(...) not found")
+    var = specs[0].targets[0].id
+    rets = [n for n in _own(gp) if isinstance(n, ast.Return) and n.value is not None]
+    ret_src = set()
+    for x in rets:
+        ret_src |= sources(x.value, gp)
+    la = _local_assignments(gp)
+    for kind in ('args', 'varargs', 'varkw', 'kwonlyargs'):
+        reads = [n for n in ast.walk(gp) if isinstance(n, ast.Attribute) and n.attr == kind and isinstance(n.value, ast.Name)
+                 and n.value.id == var]
+        rejected, encoded = False, False
+        for n in reads:
+            a = enclosing(n, (ast.Assert,))
+            if a is not None and any(x is n for x in ast.walk(a.test)):
+                # `assert not argspec.kind`: only valid for the getfullargspec result (same try body or after the try)
+                t = a.test
+                neg = isinstance(t, ast.UnaryOp) and isinstance(t.op, ast.Not)
+                in_fallback = enclosing(a, (ast.ExceptHandler,)) is not None
+                if neg and not in_fallback:
+                    rejected = True
+                continue
+            i = enclosing(n, (ast.If,))
+            if i is not None and any(x is n for x in ast.walk(i.test)) and always_exits(i.body) and \
+                    any(isinstance(x, ast.Raise) for b in i.body for x in ast.walk(b)):
+                rejected = True
+                continue
+            st = enclosing(n, (ast.Assign, ast.For))
+            if st is not None:
+                tg = {x.id for x in ast.walk(st.targets[0] if isinstance(st, ast.Assign) else st.target) if isinstance(x, ast.Name)}
+                # flows into the returned list: through a local, a loop over it, or a length derived from it
+                reach, todo = set(), list(tg)
+                while todo:
+                    nm = todo.pop()
+                    if nm in reach:
+                        continue
+                    reach.add(nm)
+                    for other, vs in la.items():
+                        if any(v is not None and nm in _names_of_raw(v) for v in vs):
+                            todo.append(other)
+                    for lp in [x for x in _own(gp) if isinstance(x, ast.For) and nm in _names_of_raw(x.iter)]:
+                        todo.extend(y.id for y in ast.walk(lp.target) if isinstance(y, ast.Name))
+                appended = set()
+                for c in [x for x in ast.walk(gp) if isinstance(x, ast.Call) and isinstance(x.func, ast.Attribute) and
+                          x.func.attr == 'append']:
+                    appended |= _names_of_raw(c)
+                if reach & (ret_src | appended):
+                    encoded = True
+        cons = f"construct() {kind}"
+        if rejected or encoded:
+            r.ok(tm, 'Component._gen_parameters', cons, note='rejected by a guard' if rejected else 'encoded in the parameter list')
+        else:
+            r.bad(tm, 'Component._gen_parameters', cons,
+                  f"`{var}.{kind}` is neither encoded in the parameter list nor rejected: a construct() argument of that kind "
+                  f"(e.g. a keyword-only `*, incr`) silently drops out of the module name, so C(8, incr=1) and C(8, incr=2) "
+                  f"share one name with different bodies", gp.lineno)
 
 
 def _param_flow(r, repo):
@@ -1491,12 +1557,12 @@ def rule_once(repo):
             continue
         desc = ' / '.join(f"{'else' if t is None else norm(t)} -> {norm(v)}" for t, v in ch)[:200]
         la = _local_assignments(host)
-        last = ch[-1][1]
-        last_src = norm(last) + ' ' + ' '.join(norm(v) for nm in _names_of(last) for v in la.get(nm, []) if v is not None)
-        expl = [i for i, (t, v) in enumerate(ch) if t is not None and 'explicit' in norm(t)]
-        if ch[-1][0] is None and 'rtlir_tr_component_unique_name' in last_src and expl and \
-                'explicit' in norm(ch[expl[0]][1]):
-            r.ok(m, q, desc)
+        def arm_src(v):
+            return norm(v) + ' ' + ' '.join(norm(x) for nm in _names_of(v) for x in la.get(nm, []) if x is not None)
+        has_unique = any('rtlir_tr_component_unique_name' in arm_src(v) for t, v in ch)
+        has_expl = any('explicit' in arm_src(v) for t, v in ch)
+        if has_unique and has_expl:
+            r.ok(m, q, desc[:120], note="which arm is taken when is evaluated by R-C13-defname")
         else:
             r.bad(m, q, desc, "the instantiated module name must be: placeholder top module / explicit name, else "
                   "rtlir_tr_component_unique_name(...) -- the function the definition side uses", host.lineno)
@@ -1618,6 +1684,7 @@ def rule_instname(repo):
             src = sources(c.args[0], host) if c.args else set()
             if idx_params and (src & idx_params):
                 r.ok(m, q, cons, note=f"depends on the element index through {sorted(src & idx_params)}")
+                _element_order(r, m, top, host, c, idx_params)
             else:
                 r.bad(m, q, cons,
                       f"the instantiated module name is computed from {sorted(src - {'s', 'self'})} which does not depend on "
@@ -1626,6 +1693,202 @@ def rule_instname(repo):
                       f"is defined for each", c.lineno)
     r.require_floor(2)
     return r
+
+
+class _MiniExec(_GuardEval):
+    """evaluates an extracted straight-line / while block that selects an array element (string building, int(), list(),
+    getattr, eval of an attribute path, subscripts, pop) over concrete index paths"""
+    def ev_JoinedStr(self, x):
+        out = ''
+        for v in x.values:
+            if isinstance(v, ast.Constant):
+                out += str(v.value)
+            else:
+                out += format(self.ev(v.value), '')
+        return out
+
+    def ev_Attribute(self, e):
+        base = self.ev(e.value)
+        if isinstance(base, dict) and e.attr in base:
+            return base[e.attr]
+        raise AnalysisError(f"attribute outside the element-lookup domain: {norm(e)}")
+
+    def ev_Call(self, e):
+        f = e.func
+        if isinstance(f, ast.Name):
+            args = [self.ev(a) for a in e.args]
+            if f.id == 'eval' and len(args) == 1 and isinstance(args[0], str):
+                return self.ev(ast.parse(args[0], mode='eval').body)
+            if f.id == 'getattr' and len(args) >= 2 and isinstance(args[0], dict):
+                return args[0][args[1]]
+            table = {'int': int, 'str': str, 'list': list, 'tuple': tuple, 'len': len, 'reversed': lambda v: list(reversed(v)),
+                     'range': lambda *a: list(range(*a)), 'enumerate': lambda v: list(enumerate(v)), 'sum': sum}
+            if f.id in table:
+                return table[f.id](*args)
+            raise AnalysisError(f"call outside the element-lookup domain: {norm(e)}")
+        if isinstance(f, ast.Attribute):
+            v = self.ev(f.value)
+            args = [self.ev(a) for a in e.args]
+            if isinstance(v, str) and f.attr in ('split', 'join', 'strip', 'lstrip', 'rstrip', 'replace', 'format'):
+                return getattr(v, f.attr)(*args)
+            if isinstance(v, list) and f.attr in ('pop', 'append', 'reverse', 'index', 'copy', 'insert'):
+                return getattr(v, f.attr)(*args)
+        raise AnalysisError(f"call outside the element-lookup domain: {norm(e)}")
+
+    def exec(self, stmts, fuel=200):
+        for st in stmts:
+            if isinstance(st, ast.Assign) and len(st.targets) == 1 and isinstance(st.targets[0], ast.Name):
+                self.env[st.targets[0].id] = self.ev(st.value)
+            elif isinstance(st, ast.Assign) and len(st.targets) == 1 and isinstance(st.targets[0], (ast.Tuple, ast.List)):
+                vals = self.ev(st.value)
+                for t, v in zip(st.targets[0].elts, vals):
+                    self.env[t.id] = v
+            elif isinstance(st, ast.AugAssign) and isinstance(st.target, ast.Name) and isinstance(st.op, ast.Add):
+                self.env[st.target.id] = self.env[st.target.id] + self.ev(st.value)
+            elif isinstance(st, ast.While):
+                while self.ev(st.test):
+                    fuel -= 1
+                    if fuel < 0:
+                        raise AnalysisError("element lookup does not terminate")
+                    self.exec(st.body, fuel)
+            elif isinstance(st, ast.For) and isinstance(st.target, ast.Name):
+                for v in self.ev(st.iter):
+                    self.env[st.target.id] = v
+                    self.exec(st.body, fuel)
+            elif isinstance(st, ast.If):
+                self.exec(st.body if self.ev(st.test) else st.orelse, fuel)
+            elif isinstance(st, ast.Expr):
+                self.ev(st.value)
+            else:
+                raise AnalysisError(f"statement outside the element-lookup domain: {norm(st)[:60]}")
+
+
+def _element_order(r, m, top, host, call, idx_params):
+    """the element whose RTLIR names instance (i, j) is the element at index path (i, j): evaluated on a 2 x 3 array"""
+    q = qualname(call)
+    cons = "element selected for instance <id>__i__j is element [i][j]"
+    params = [a.arg for a in host.args.args]
+    rec = [n for n in ast.walk(host) if isinstance(n, ast.Call) and isinstance(n.func, ast.Name) and n.func.id == host.name]
+    init = [n for n in _own(top) if isinstance(n, ast.Call) and isinstance(n.func, ast.Name) and n.func.id == host.name]
+    if len(rec) != 1 or len(init) != 1:
+        raise AnalysisError(f"{m.rel}: per-element recursion of {host.name} not understood")
+    rec, init = rec[0], init[0]
+    loop = enclosing(rec, (ast.For, ast.comprehension)) if enclosing(rec, (ast.For,)) is not None else None
+    if loop is None:
+        comps = [g for n in ast.walk(host) if isinstance(n, (ast.ListComp, ast.GeneratorExp)) and
+                 any(x is rec for x in ast.walk(n)) for g in n.generators]
+        if len(comps) != 1:
+            raise AnalysisError(f"{m.rel}: loop around the recursive call of {host.name} not found")
+        loop = comps[0]
+    lv = loop.target.id if isinstance(loop.target, ast.Name) else None
+    if lv is None:
+        raise AnalysisError(f"{m.rel}: loop variable of the per-element recursion not a plain name")
+    # which value feeds get_rtlir(...)
+    elem = None
+    for v in [call.args[0]] + [x for nm in _names_of_raw(call.args[0]) for x in _local_assignments(host).get(nm, []) if x is not None]:
+        for cc in ast.walk(v):
+            if isinstance(cc, ast.Call) and isinstance(cc.func, ast.Attribute) and cc.func.attr == 'get_rtlir' and cc.args:
+                elem = cc.args[0]
+    if elem is None or not isinstance(elem, ast.Name):
+        raise AnalysisError(f"{m.rel}: the object whose RTLIR names the instance is not a plain variable")
+    grid = [[f"e{i}{j}" for j in range(3)] for i in range(2)]
+    bad = None
+    if elem.id in params:
+        # the element itself travels down the recursion: must be indexed by the same loop variable as the instance id
+        a = rec.args[params.index(elem.id)]
+        if isinstance(a, ast.Subscript) and norm(a.value) == elem.id and norm(a.slice) == lv:
+            r.ok(m, q, cons, note="the element is indexed level by level together with the instance id")
+        else:
+            r.bad(m, q, cons, f"the recursion passes `{norm(a)}` as the element: it is not indexed by the loop variable `{lv}` "
+                  f"that also extends the instance id, so instance ids and elements can diverge", rec.lineno)
+        return
+    # the element is looked up in the leaf from the accumulated index parameter(s)
+    leaf_stmt = call
+    while parent(leaf_stmt) is not None and not any(leaf_stmt in getattr(parent(leaf_stmt), fld, []) if isinstance(
+            getattr(parent(leaf_stmt), fld, None), list) else False for fld in ('body', 'orelse')):
+        leaf_stmt = parent(leaf_stmt)
+    blk = None
+    for fld in ('body', 'orelse'):
+        b = getattr(parent(leaf_stmt), fld, None)
+        if isinstance(b, list) and any(x is leaf_stmt for x in b):
+            blk = b
+    idx = [i for i, x in enumerate(blk) if x is leaf_stmt][0]
+    need = sources(elem, host) | {elem.id}
+    la = _local_assignments(host)
+    closure, todo = set(), [elem.id]
+    while todo:
+        nm = todo.pop()
+        if nm in closure:
+            continue
+        closure.add(nm)
+        for v in la.get(nm, []):
+            if v is not None:
+                todo.extend(_names_of_raw(v))
+    closure |= need
+    changed = True
+    while changed:                      # everything the selecting statements read (loop iterables, while tests, ...)
+        changed = False
+        for st in blk[:idx + 1]:
+            if isinstance(st, (ast.Import, ast.ImportFrom)):
+                continue
+            stored = {x.id for x in ast.walk(st) if isinstance(x, ast.Name) and isinstance(x.ctx, ast.Store)}
+            if stored & closure:
+                reads = {x.id for x in ast.walk(st) if isinstance(x, ast.Name) and isinstance(x.ctx, ast.Load)}
+                if not reads <= closure:
+                    closure |= reads
+                    changed = True
+    pre = []
+    for st in blk[:idx + 1]:
+        stored = {x.id for x in ast.walk(st) if isinstance(x, ast.Name) and isinstance(x.ctx, ast.Store)}
+        mutated = {norm(x.func.value) for x in ast.walk(st) if isinstance(x, ast.Call) and isinstance(x.func, ast.Attribute)
+                   and x.func.attr in ('pop', 'append', 'reverse', 'insert')}
+        if isinstance(st, (ast.Import, ast.ImportFrom)):
+            continue
+        if (stored | mutated) & closure and not any(isinstance(x, ast.Call) and isinstance(x.func, ast.Attribute) and
+                                                    x.func.attr in ('get_rtlir', 'rtlir_tr_component_unique_name')
+                                                    for x in ast.walk(st)):
+            pre.append(st)
+    for i in range(2):
+        for j in range(3):
+            env = {}
+            for pname, a in zip(params, init.args):
+                # initial value, then one recursion step per dimension
+                try:
+                    val = _MiniExec({'n_dim': [2, 3]}, arith=True).ev(a) if pname in idx_params else None
+                except AnalysisError:
+                    val = None
+                env[pname] = val
+            for k in (i, j):
+                new = dict(env)
+                for pname, a in zip(params, rec.args):
+                    if pname in idx_params:
+                        e2 = dict(env)
+                        e2[lv] = k
+                        new[pname] = _MiniExec(e2, arith=True).ev(a)
+                env = new
+            cid = 'x'
+            for pname in params:
+                if env.get(pname) is None:
+                    env[pname] = cid if pname == top.args.args[2].arg else None
+            env['m'] = {cid: grid}
+            env[top.args.args[1].arg] = {cid: grid}
+            env[top.args.args[2].arg] = env.get(top.args.args[2].arg) or cid
+            env['n_dim'] = []
+            ex = _MiniExec(env, arith=True)
+            r.evaluations += 1
+            try:
+                ex.exec(pre)
+                got = ex.env.get(elem.id)
+            except (IndexError, KeyError, TypeError) as e_:
+                got = f"<{type(e_).__name__}: index path applied to the wrong dimensions>"
+            if got != grid[i][j] and bad is None:
+                bad = (i, j, got)
+    if bad:
+        r.bad(m, q, cons, f"for a 2 x 3 component array the instance with indices ({bad[0]}, {bad[1]}) is named after element "
+              f"{bad[2]!r} instead of 'e{bad[0]}{bad[1]}' (index path applied in the wrong order): with elements of different "
+              f"parameters the instance gets another element's module", call.lineno)
+    else:
+        r.ok(m, q, cons)
 
 
 def rule_defname(repo):
@@ -1669,6 +1932,89 @@ def rule_defname(repo):
         else:
             r.ok(m, fn, cons)
     r.require_floor(2)
+    return r
+
+
+def rule_instchain(repo):
+    """Instantiation side of the definition/instantiation agreement.  A (non-top) placeholder child is DEFINED by its
+    pickled wrapper, i.e. under cfg.pickled_top_module, whatever explicit name it carries; any other child is defined under
+    its explicit name if set, else under its unique name (R-C13-defname above).  The name chosen at the instantiation site
+    is evaluated over {placeholder / ordinary} x {explicit name set / unset} in both back-ends."""
+    r = RuleResult('R-C13-defname', "instantiated module name == defined module name for placeholder / explicitly named / "
+                                    "ordinary children, identically in the SystemVerilog and Yosys back-ends")
+    import itertools
+    tables = {}
+    for rel in (VSL4, YSL4):
+        m = repo.mod(rel)
+        fs = [n for n in ast.walk(m.tree) if isinstance(n, ast.FunctionDef) and n.name == 'rtlir_tr_subcomp_decl']
+        if len(fs) != 1:
+            raise AnalysisError(f"anchor vanished: rtlir_tr_subcomp_decl in {rel}")
+        host, ch = None, None
+        for fn in [n for n in ast.walk(fs[0]) if isinstance(n, ast.FunctionDef)]:
+            ch = _if_chain_assign(fn, 'c_name')
+            if ch:
+                host = fn
+                break
+        if not ch:
+            raise AnalysisError(f"{rel}: decision chain for the instantiated module name not found")
+        la = _local_assignments(host)
+        expl_names = {nm for nm, vs in la.items() if any(v is not None and 'explicit_module_name' in norm(v) for v in vs)}
+        table = {}
+        for is_ph, has_expl in itertools.product((False, True), repeat=2):
+            def leaf(e, is_ph=is_ph, has_expl=has_expl):
+                if isinstance(e, ast.Call) and norm(e.func) == 'isinstance' and len(e.args) == 2:
+                    if 'Placeholder' in norm(e.args[1]):
+                        return is_ph
+                    raise AnalysisError(f"isinstance test outside the domain: {norm(e)}")
+                if isinstance(e, ast.Name) and e.id in expl_names:
+                    return 'EXPL' if has_expl else ''
+                if isinstance(e, ast.Attribute) and e.attr == 'pickled_top_module':
+                    return 'PICKLED'
+                if isinstance(e, ast.Call) and isinstance(e.func, ast.Attribute) and e.func.attr == 'rtlir_tr_component_unique_name':
+                    return 'UNIQUE'
+                if isinstance(e, ast.Name) and any(v is not None and isinstance(v, ast.Call) and isinstance(v.func, ast.Attribute)
+                                                   and v.func.attr == 'rtlir_tr_component_unique_name' for v in la.get(e.id, [])):
+                    return 'UNIQUE'
+                if isinstance(e, ast.Call) and isinstance(e.func, ast.Attribute) and e.func.attr in ('has_metadata',):
+                    return has_expl
+                if isinstance(e, ast.Call) and isinstance(e.func, ast.Attribute) and e.func.attr in ('get_metadata',) and \
+                        'explicit_module_name' in norm(e):
+                    return 'EXPL' if has_expl else ''
+                return NotImplemented
+            got = None
+            for t, v in ch:
+                ev = Evaluator({}, arith=False, leaf=leaf)
+                r.evaluations += 1
+                if t is None or ev.ev(t):
+                    try:
+                        got = ev.ev(v)
+                    except AnalysisError:
+                        got = f"<{norm(v)[:40]}>"
+                    break
+            table[(is_ph, has_expl)] = got
+        tables[rel] = table
+        want = {(ph, ex): ('PICKLED' if ph else ('EXPL' if ex else 'UNIQUE')) for ph in (False, True) for ex in (False, True)}
+        wrong = [(k, table[k], want[k]) for k in sorted(want) if table[k] != want[k]]
+        cons = "instantiated name over {placeholder child} x {explicit name set}"
+        if wrong:
+            (ph, ex), got, w = wrong[0]
+            r.bad(m, qualname(host), cons,
+                  f"a {'placeholder' if ph else 'ordinary'} child {'with' if ex else 'without'} an explicit module name is "
+                  f"instantiated as {got!r} but defined as {w!r} (a placeholder child is defined by its pickled wrapper "
+                  f"`pickled_top_module`, whatever explicit name it carries): the output instantiates a module that is "
+                  f"defined nowhere", host.lineno)
+        else:
+            r.ok(m, qualname(host), cons)
+    if len(tables) == 2:
+        a, b = tables[VSL4], tables[YSL4]
+        if a == b:
+            r.ok(YSL4, 'rtlir_tr_subcomp_decl', 'SystemVerilog and Yosys instantiation name decisions agree')
+        else:
+            diff = [k for k in a if a[k] != b[k]]
+            r.bad(repo.mod(YSL4), 'rtlir_tr_subcomp_decl', 'SystemVerilog vs Yosys instantiation name decision',
+                  f"the two back-ends name the instantiated module differently for (placeholder, explicit) = {diff}: "
+                  f"SystemVerilog {[a[k] for k in diff]} vs Yosys {[b[k] for k in diff]}")
+    r.require_floor(3)
     return r
 
 
@@ -2110,6 +2456,80 @@ class _Reserved:
         return True, (cov, used)
 
 
+class _ReservedVisitor(_Reserved):
+    """the same must-analysis for the behavioural visitors: the user-chosen `node.name` (update-block label, loop
+    variable, temporary) that reaches the text BARE (not glued to a generated prefix / suffix) must pass check_res"""
+    def aliases(self, f, p):
+        nodep = f.args.args[1].arg if len(f.args.args) > 1 else None
+        out = set()
+        for nm, vs in _local_assignments(f).items():
+            if len(vs) == 1 and isinstance(vs[0], ast.Attribute) and vs[0].attr == p and norm(vs[0].value) == nodep:
+                out.add(nm)
+        return out
+
+    def is_ident(self, e, f, p):
+        nodep = f.args.args[1].arg if len(f.args.args) > 1 else None
+        if isinstance(e, ast.Attribute) and e.attr == p and norm(e.value) == nodep:
+            return True
+        return isinstance(e, ast.Name) and e.id in self.aliases(f, p)
+
+    def event(self, node, f, p):
+        nodep = f.args.args[1].arg if len(f.args.args) > 1 else None
+        for c in ast.walk(node):
+            if not isinstance(c, ast.Call) or not isinstance(c.func, ast.Attribute):
+                continue
+            if c.func.attr == 'check_res' and any(self.is_ident(a, f, p) for a in c.args):
+                return True
+            recv = c.func.value
+            if isinstance(recv, ast.Call) and norm(recv.func) == 'super' and c.func.attr == f.name and \
+                    any(isinstance(a, ast.Name) and a.id == nodep for a in c.args):
+                cands = [x for x in self.defs.get(f.name, []) if x[2] is not f and x[1] is not enclosing(f, (ast.ClassDef,))]
+                if cands and all(self.covered(g, p) for _, _, g in cands):
+                    return True
+        return False
+
+    @staticmethod
+    def _idch(ch):
+        return ch.isalnum() or ch in '_$'
+
+    def used(self, node, p, f=None):
+        for n in ast.walk(node):
+            if isinstance(n, ast.Raise):
+                continue
+            if not self.is_ident(n, f, p):
+                continue
+            if enclosing(n, (ast.Raise, ast.Assert)) is not None and any(x is n for x in ast.walk(enclosing(n, (ast.Raise, ast.Assert)))):
+                continue
+            par = parent(n)
+            if isinstance(par, ast.FormattedValue):
+                js = parent(par)
+                if isinstance(js, ast.JoinedStr):
+                    i = [k for k, v in enumerate(js.values) if v is par][0]
+                    before = js.values[i - 1] if i > 0 else None
+                    after = js.values[i + 1] if i + 1 < len(js.values) else None
+                    glued = (isinstance(before, ast.Constant) and str(before.value) and self._idch(str(before.value)[-1])) or \
+                            (isinstance(after, ast.Constant) and str(after.value) and self._idch(str(after.value)[0])) or \
+                            isinstance(before, ast.FormattedValue) or isinstance(after, ast.FormattedValue)
+                    if not glued:
+                        return True
+                continue
+            if isinstance(par, ast.Return):
+                return True
+            if isinstance(par, ast.BinOp) and isinstance(par.op, ast.Add):
+                other = par.right if par.left is n else par.left
+                gl = isinstance(other, ast.Constant) and isinstance(other.value, str) and other.value and \
+                    self._idch(other.value[-1] if par.right is n else other.value[0])
+                if not gl:
+                    return True
+                continue
+            if isinstance(par, ast.Call) and isinstance(par.func, ast.Attribute) and par.func.attr in ('append', 'add', 'format'):
+                if par.func.attr == 'format' or any(a is n for a in par.args):
+                    if par.func.attr == 'add':
+                        continue            # bookkeeping sets
+                    return True
+        return False
+
+
 def rule_reserved(repo):
     r = RuleResult('R-C13-reserved', "every generator of a port / wire / constant declaration passes the user-chosen identifier "
                                      "through the reserved-word check on every path (SystemVerilog and Yosys back-ends)")
@@ -2150,11 +2570,37 @@ def rule_reserved(repo):
                       f"SystemVerilog keyword (e.g. a wire called `reg`) is declared as `logic [7:0] reg;`", f.lineno)
         if n == 0:
             raise AnalysisError(f"anchor vanished: no declaration generators in the {backend} back-end")
-    r.require_floor(6)
+    # ---- behavioural visitors: block labels, loop variables, temporaries
+    vb = [f for f in scope if f.startswith(VTRANS + 'behavioral/')]
+    yb = [f for f in scope if f.startswith(YTRANS + 'behavioral/')]
+    for backend, files, own in (('verilog', vb, vb), ('yosys', yb + vb, yb)):
+        rv = _ReservedVisitor(repo, files, own)
+        if 'check_res' not in rv.defs:
+            raise AnalysisError("anchor vanished: check_res")
+        n = 0
+        for m, c, f in rv.own:
+            if not f.name.startswith('visit_') or len(f.args.args) < 2:
+                continue
+            if not rv.used(f, 'name', f):
+                continue
+            n += 1
+            cons = f"{backend}: {f.name} emits node.name"
+            if rv.covered(f, 'name'):
+                r.ok(m, qualname(f), cons)
+            else:
+                sib = sorted({g.name for _, _, g in rv.own + [x for v in rv.defs.values() for x in v]
+                              if g.name.startswith('visit_') and g is not f and rv.used(g, 'name', g) and rv.covered(g, 'name')})[:3]
+                r.bad(m, qualname(f), cons,
+                      f"`node.name` reaches the emitted text bare (e.g. as a block label / loop variable) on a path without "
+                      f"check_res, while the sibling visitors {sib} check it: an update block or variable called like a "
+                      f"SystemVerilog keyword (e.g. `reg`) is emitted as `begin : reg`", f.lineno)
+        if backend == 'verilog' and n < 2:
+            raise AnalysisError("anchor vanished: no visitor emitting node.name found in the SystemVerilog behavioural translator")
+    r.require_floor(9)
     return r
 
 
-RULES = [rule_unordered, rule_dedup, rule_name, rule_once, rule_instname, rule_defname, rule_defaults, rule_state,
+RULES = [rule_unordered, rule_dedup, rule_name, rule_once, rule_instname, rule_defname, rule_instchain, rule_defaults, rule_state,
          rule_eqhash, rule_reserved]
 
 
@@ -2305,6 +2751,40 @@ MUTANTS = [
     _m('placeholder-guard-from-pid', VPLACEHOLDER,
        '        f"`ifndef {cfg.dependency_guard_symbol}\\n"',
        '        f"`ifndef {cfg.dependency_guard_symbol}_{os.getpid()}\\n"', 'R-C13-unordered'),
+    # --- round 5: instantiation / definition agreement, element order, argspec kinds, block labels
+    _m('yosys-explicit-name-before-placeholder', YSL4,
+       """        if isinstance(obj, VerilogPlaceholder):
+          c_name = obj.get_metadata( s._placeholder_pass.placeholder_config ).pickled_top_module
+        elif subcomp_explicit_name:
+          # If someone sets explicit_module_name, we need to honor that config
+          c_name = subcomp_explicit_name
+""", """        if subcomp_explicit_name:
+          # If someone sets explicit_module_name, we need to honor that config
+          c_name = subcomp_explicit_name
+        elif isinstance(obj, VerilogPlaceholder):
+          c_name = obj.get_metadata( s._placeholder_pass.placeholder_config ).pickled_top_module
+""", 'R-C13-defname'),
+    _m('verilog-instantiation-ignores-explicit-name', VSL4, "        elif subcomp_explicit_name:\n", "        elif False:\n",
+       'R-C13-defname'),
+    _m('verilog-element-indices-innermost-first', VSL4,
+       "        attr = c_id + ''.join(f'[{dim}]' for dim in _n_dim)\n        obj = eval(f'm.{attr}')\n",
+       "        obj, dims = getattr( m, c_id ), list( _n_dim )\n        while dims:\n          obj = obj[ dims.pop() ]\n",
+       'R-C13-instname'),
+    _m('verilog-element-indices-reversed-string', VSL4, "        attr = c_id + ''.join(f'[{dim}]' for dim in _n_dim)\n",
+       "        attr = c_id + ''.join(f'[{dim}]' for dim in reversed(_n_dim))\n", 'R-C13-instname'),
+    _m('yosys-element-not-indexed-by-loop-variable', YSL4,
+       '          ret += _subcomp_port_gen( obj[i], c_id+"__"+str(i), n_dim[1:], port_decls )',
+       '          ret += _subcomp_port_gen( obj[0], c_id+"__"+str(i), n_dim[1:], port_decls )', 'R-C13-instname'),
+    _m('kwonly-construct-args-silently-ignored', RTYPE,
+       '      assert not argspec.kwonlyargs, "keyword args are not allowed for construct!"\n', '', 'R-C13-name'),
+    _m('varargs-construct-args-silently-ignored', RTYPE,
+       '    assert not argspec.varargs, "varargs are not allowed for construct!"\n', '', 'R-C13-name'),
+    _m('seq-block-label-not-checked', VTRANS + 'behavioral/VBehavioralTranslatorL1.py',
+       "    s.upblk_type = s.SEQUENTIAL\n\n    s.check_res( node, blk_name )\n", "    s.upblk_type = s.SEQUENTIAL\n",
+       'R-C13-reserved'),
+    _m('loop-variable-not-checked', VTRANS + 'behavioral/VBehavioralTranslatorL2.py',
+       "  def visit_LoopVarDecl( s, node ):\n    s.check_res( node, node.name )\n", "  def visit_LoopVarDecl( s, node ):\n",
+       'R-C13-reserved'),
     # --- R-C13-state
     _m('translator-state-initialised-once', VTRANSLATOR,
        "      s._mangled_placeholder_top_module_name = ''\n      s._included_pickled_files = set()\n",
@@ -2323,7 +2803,7 @@ MUTANTS = [
        "    if structural.component_explicit_module_name:\n      module_name = \\\n          structural.component_explicit_module_name\n    elif",
        "    if False:\n      module_name = \\\n          structural.component_explicit_module_name\n    elif", 'R-C13-once'),
     _m('instantiation-named-by-class', VSL4, "          c_name = _c_name", "          c_name = obj_c_rtype.get_name()",
-       'R-C13-once'),
+       'R-C13'),
     _m('backend-unique-name-is-full-name', VSL1, "    return get_component_unique_name( c_rtype )",
        "    return get_component_full_name( c_rtype )", 'R-C13-once'),
     _m('namespace-of-the-top', TRANSLATOR, "            setattr( ns, name, metadata_d[m] )",
@@ -2438,6 +2918,29 @@ EQUIV = [
        "        cfg.pickled_top_module = f\"{irepr.get_name()}_noparam\"",
        "      if not has_params:\n        cfg.pickled_top_module = f\"{irepr.get_name()}_noparam\"\n      else:\n"
        "        cfg.pickled_top_module = get_component_unique_name( irepr )", None),
+    _m('verilog-element-lookup-by-walk-in-order', VSL4,
+       "        attr = c_id + ''.join(f'[{dim}]' for dim in _n_dim)\n        obj = eval(f'm.{attr}')\n",
+       "        obj = getattr( m, c_id )\n        for dim in _n_dim:\n          obj = obj[ dim ]\n", None),
+    _m('yosys-instantiation-chain-nested-ifs', YSL4,
+       """        elif subcomp_explicit_name:
+          # If someone sets explicit_module_name, we need to honor that config
+          c_name = subcomp_explicit_name
+        else:
+          obj_c_rtype = s.tr_top.get_metadata( RTLIRPass.rtlir_getter ).get_rtlir( obj )
+          c_name = s.rtlir_tr_component_unique_name( obj_c_rtype )
+""", """        elif not subcomp_explicit_name:
+          obj_c_rtype = s.tr_top.get_metadata( RTLIRPass.rtlir_getter ).get_rtlir( obj )
+          c_name = s.rtlir_tr_component_unique_name( obj_c_rtype )
+        else:
+          # If someone sets explicit_module_name, we need to honor that config
+          c_name = subcomp_explicit_name
+""", None),
+    _m('kwonly-guard-as-if-raise', RTYPE,
+       '      assert not argspec.kwonlyargs, "keyword args are not allowed for construct!"\n',
+       '      if argspec.kwonlyargs:\n        raise AssertionError( "keyword args are not allowed for construct!" )\n', None),
+    _m('seq-block-label-checked-on-attribute', VTRANS + 'behavioral/VBehavioralTranslatorL1.py',
+       "    s.upblk_type = s.SEQUENTIAL\n\n    s.check_res( node, blk_name )\n",
+       "    s.check_res( node, node.name )\n    s.upblk_type = s.SEQUENTIAL\n", None),
     _m('local-renamed-in-unique-name', VUTIL, "  param_name = param_hash.hexdigest()\n  return comp_name + \"__\" + param_name",
        "  digest = param_hash.hexdigest()\n  return comp_name + \"__\" + digest", None),
 ]
